@@ -68,21 +68,27 @@ type slot struct {
 
 // ChanState is the virtual state of one channel.
 type ChanState struct {
-	ID     uint64 // schedule independent identity
-	Seq    int
-	Name   string
-	Cap    int
-	buf    []slot
-	Closed bool
-	Eager  bool // always ready to receive (sub-unit ticker)
-	IsTick bool
-	sync   []byte // race build: addresses standing for buffer slots / close
-	sendx  int
-	recvx  int
+	ID      uint64 // schedule independent identity
+	Seq     int
+	Name    string
+	Cap     int
+	buf     []slot
+	Closed  bool
+	Eager   bool // always ready to receive (sub-unit ticker)
+	IsTick  bool
+	endless *slot  // every receive yields this value, the channel never runs empty
+	sync    []byte // race build: addresses standing for buffer slots / close
+	sendx   int
+	recvx   int
 }
 
 //go:norace
-func (c *ChanState) Len() int { return len(c.buf) }
+func (c *ChanState) Len() int {
+	if c.endless != nil {
+		return c.Cap
+	}
+	return len(c.buf)
+}
 
 //go:norace
 func (c *ChanState) String() string {
@@ -477,6 +483,15 @@ func Prefill[T any](ch chan T, vals ...T) {
 	for _, v := range vals {
 		s.buf = append(s.buf, slot{v, HashAny(v)})
 	}
+}
+
+// Endless makes a channel an inexhaustible source of val (setup): every receive
+// yields val and the channel never runs empty - "data waiting continuously".
+//
+//go:norace
+func Endless[T any](ch chan T, val T) {
+	s := W.stateOf(chanPtr[T](ch), cap(ch))
+	s.endless = &slot{val, HashAny(val)}
 }
 
 // CloseNow closes without a scheduling point (setup).
@@ -882,7 +897,7 @@ func (t *Thread) finish() {
 }
 
 //go:norace
-func recvReady(s *ChanState) bool { return len(s.buf) > 0 || s.Closed || s.Eager }
+func recvReady(s *ChanState) bool { return len(s.buf) > 0 || s.Closed || s.Eager || s.endless != nil }
 
 //go:norace
 func sendReady(s *ChanState) bool { return s.Closed || len(s.buf) < s.Cap }
@@ -1196,6 +1211,8 @@ func (w *World) apply(tr Trans) {
 			var vh uint64
 			ok := true
 			switch {
+			case c.ch.endless != nil:
+				v, vh = c.ch.endless.v, c.ch.endless.h
 			case len(c.ch.buf) > 0:
 				v, vh = c.ch.buf[0].v, c.ch.buf[0].h
 				c.ch.buf = c.ch.buf[1:]
